@@ -10,9 +10,10 @@ import (
 // notApplicable: properties not claimed, with the reason. A property that is
 // registered (has rules) is claimed and must not appear here; `-manifest`
 // fails if the two sets overlap or do not cover C01..C53.
-var notApplicable = map[string]string{
-	"C10": "hex-prefix encoding bijection is a universally quantified equality over nibble arrays computed by index-arithmetic loops; no lock, order, ownership, codec-table or guard structure carries it, so no sound static necessary condition exists in this family (a solver or proof assistant decides it, not a syntax/flow analysis)",
-}
+// (C10 was listed here originally; it is now claimed through the thin
+// flag-layout agreement rule of rules_C10.go, which decides only that
+// necessary condition and says so.)
+var notApplicable = map[string]string{}
 
 // pendingReason is used for properties whose static rules are designed
 // (DESIGN.md §5) but not implemented yet: they are honestly not claimed.
